@@ -32,8 +32,27 @@ func (o *Obligation) query(withModel bool) string {
 	if np > len(lines) {
 		np = len(lines)
 	}
-	body := strings.Join(lines[np:], "\n") + "\n" + o.Goal
+	var bodyLines []string
+	for i := np; i < len(lines); i++ {
+		if _, isAx := o.VC.axLines[i]; !isAx {
+			bodyLines = append(bodyLines, lines[i])
+		}
+	}
+	body := strings.Join(bodyLines, "\n") + "\n" + o.Goal
 	for i, l := range lines {
+		if ax, isAx := o.VC.axLines[i]; isAx {
+			used := false
+			for _, s := range ax.syms {
+				if strings.Contains(body, "("+s+" ") {
+					used = true
+					break
+				}
+			}
+			if !used {
+				continue
+			}
+			o.VC.eng.markAxiom(ax.name, ax.text)
+		}
 		if o.Expect == "sat" && strings.Contains(l, "(forall ") {
 			continue // satisfiability of the quantifier-free part is what the guard checks
 		}
